@@ -336,11 +336,51 @@ def replay(cfg, events):
                 e.setdefault("graphs", [])
             elif op == "prepare":
                 prepared[e["id"]] = prepareQuery(q_text(e["q"]))
+            elif op == "run_interleaved":
+                # two result objects of the same prepared query consumed alternately (lazy generators share the parse tree)
+                form = e.get("form", "select")
+                try:
+                    def both():
+                        r1 = g.query(prepared[e["id"]], initBindings=init_bindings(e))
+                        e2 = dict(e)
+                        if "init2" in e:
+                            e2["init"] = e["init2"]
+                        else:
+                            e2.pop("init", None)
+                        r2 = g.query(prepared[e["id"]], initBindings=init_bindings(e2))
+                        i1, i2 = iter(r1), iter(r2)
+                        d1 = d2 = False
+                        while not (d1 and d2):
+                            if not d1:
+                                try:
+                                    next(i1)
+                                except StopIteration:
+                                    d1 = True
+                            if not d2:
+                                try:
+                                    next(i2)
+                                except StopIteration:
+                                    d2 = True
+                        return result_of(r1, form), result_of(r2, form), e2
+                    ra, rb, e2 = guarded(both)
+                    first = {k: v for k, v in e.items() if k not in ("init2",)}
+                    first.update(op="run", res=ra)
+                    second = {k: v for k, v in e2.items() if k not in ("init2",)}
+                    second.update(op="run", res=rb)
+                    evs.append(first)
+                    e = second
+                except _Timeout:
+                    e = dict(e, op="run", res={"k": "timeout"})
+                except Exception as ex:  # noqa: BLE001
+                    e = dict(e, op="run", res={"k": "raise", "e": type(ex).__name__, "msg": str(ex)[:200]})
             elif op in ("query", "run"):
                 q = e["q"] if op == "query" else None
                 try:
                     if op == "query":
                         text = q_text(q)
+                        if e.get("prefixed"):
+                            import re
+                            text = "PREFIX x: <urn:x:>\n" + re.sub(r"<urn:x:([A-Za-z][A-Za-z0-9]*)>", r"x:\1", text)
                         e["text"] = text
                         form = q.get("form", "select")
                         r = guarded(lambda: result_of(g.query(text, initBindings=init_bindings(e)), form))
